@@ -8,9 +8,23 @@ pub fn same_class(a: &Violation, b: &Violation) -> bool {
 }
 
 pub fn minimise(trace: &Trace, target: &Violation, test: &mut dyn FnMut(&Trace) -> Option<Violation>) -> (Trace, Violation, usize) {
+    minimise_impl(trace, target, test)
+}
+
+fn minimise_impl(trace: &Trace, target: &Violation, test: &mut dyn FnMut(&Trace) -> Option<Violation>) -> (Trace, Violation, usize) {
     let mut cur = trace.clone();
     let mut curv = target.clone();
     let mut tests = 0usize;
+    // the budget is counted in executed ops, so that a 70,000-op trace (an endurance run)
+    // costs no more to minimise than a 70-op one
+    let spent = std::cell::Cell::new(0u64);
+    const BUDGET_OPS: u64 = 300_000_000;
+    let inner = test;
+    let mut test = |t: &Trace| -> Option<Violation> {
+        spent.set(spent.get() + t.ops.len() as u64 + 1);
+        inner(t)
+    };
+    let over = || spent.get() > BUDGET_OPS;
     // everything after the failing op is irrelevant
     if curv.op_index + 1 < cur.ops.len() {
         let mut c = cur.clone();
@@ -42,11 +56,11 @@ pub fn minimise(trace: &Trace, target: &Violation, test: &mut dyn FnMut(&Trace) 
                 }
                 _ => start = end,
             }
-            if tests > 20_000 {
+            if tests > 20_000 || over() {
                 break;
             }
         }
-        if tests > 20_000 {
+        if tests > 20_000 || over() {
             break;
         }
         if chunk == 1 {
@@ -59,9 +73,12 @@ pub fn minimise(trace: &Trace, target: &Violation, test: &mut dyn FnMut(&Trace) 
     }
     // per-op simplification: drop fault annotations, simplify arguments
     let mut changed = true;
-    while changed && tests <= 40_000 {
+    while changed && tests <= 40_000 && !over() {
         changed = false;
         for i in 0..cur.ops.len() {
+            if over() {
+                break;
+            }
             let alts = simpler(&cur.ops[i].op);
             for a in alts {
                 let mut c = cur.clone();
